@@ -114,3 +114,7 @@ Fixpoint all_res {X} (l : list X) (f : X -> res bool) : res bool :=
   | [] => Val true
   | x :: t => let* b := f x in if b then all_res t f else Val false
   end.
+
+(* ---------- lib.rs: contains, resize ---------- *)
+Definition vec_contains {A} (eqT : A -> A -> bool) (l : list A) (v : A) : bool := existsb (fun x => eqT x v) l.
+Definition vec_truncate {A} (l : list A) (n : Z) : list A := zfirstn n l.
